@@ -179,16 +179,44 @@ def canon_of(symptom, w, program, **kw):
     c = dict(op='translate', symptom=symptom)
     if w is not None:
         c.update(kind=w.get('kind'), rev=bool(w.get('rev')), deg=bool(w.get('deg')), sin=bool(w.get('sin')))
+        if any(s_.get('positional') and s_.get('name') == w.get('id') for s_ in program):
+            c.update(positional_name=True)
     c.update(kw)
     return c
+
+class _TieOut:
+    """the Outcome with `spec_fail` marking the canonical form `rounding_tie`"""
+    def __init__(self, out, fail):
+        object.__setattr__(self, '_o', out); object.__setattr__(self, '_f', fail)
+    def spec_fail(self, *a, **k):
+        return self._f(*a, **k)
+    def __getattr__(self, n):
+        return getattr(self._o, n)
+    def __setattr__(self, n, v):
+        setattr(self._o, n, v)
 
 def check_case(ctx, out, program, geom, origin, solve=False):
     """correspondence + intended-netlist oracle on one (program, geometry); returns the circuit or None"""
     out.evaluations += 1
     desc = gd.pretty(program, geom)
-    d, placed = gd.build(program, geom)
-    if gd.tie_distance(d) < 1e-7:
-        out.skip('tie_margin'); return None
+    try:
+        d, placed = gd.build(program, geom)
+    except Exception as e:
+        # a supported placement of a supported symbol raises (it does not mis-translate)
+        lin = next((s for s in program if s['kind'] in gd.LINEAR), None)
+        dirn = gd.direction_of(lin['a'], lin['b'], geom.get('rot', 0)) if lin else None
+        out.spec_fail(dict(op='place', symptom='raises', exc=tag(e), kind=lin['kind'] if lin else None, direction=dirn),
+                      f'placing the symbols raises {type(e).__name__}: {e}', desc, program=program, geom=geom)
+        return None
+    # coordinates on a tie of round(x, 2) are judged like all others (the model rounds the same floats exactly);
+    # failures there carry `rounding_tie` in their canonical form
+    on_tie = gd.tie_distance(d) < 1e-7
+    if on_tie:
+        out.count('on_rounding_tie')
+        _sf = out.spec_fail
+        def _tie_fail(canon, *a, **k):
+            return _sf(dict(canon, rounding_tie=True), *a, **k)
+        out = _TieOut(out, _tie_fail)
     for s in program:
         out.count('kind:' + s['kind'])
     out.count('origin:' + origin)
@@ -238,22 +266,26 @@ def check_case(ctx, out, program, geom, origin, solve=False):
     # parser-level statements on the implementation: names, ground label, partition
     labels = r['labels']
     if not isinstance(labels, tuple):
+        # node name of every terminal, looked up under the parser's own rounding of the anchor the symbol carries
+        terms = []                                   # (grid point, node name)
+        for s_, e_ in zip(program, placed):
+            for key_, gp in (('start', tuple(s_['a'])), ('end', tuple(s_.get('b', s_['a'])))):
+                pa = e_.absanchors[key_]
+                rep = r["umap"].get(gd.ptkey(gd._elm().round_node(pa)))
+                lab = labels.get(rep) if rep is not None else None
+                if lab is None:
+                    out.spec_fail(dict(op='parse', symptom='terminal_without_node'), f'terminal at grid point {gp} has no node name', desc,
+                                  program=program, geom=geom); return None
+                terms.append((gp, lab))
         by_grid = {}
-        for gp, cl in spec['cls'].items():
-            x, y = gd.to_xy(geom, gp)
-            key = (round(x, 2) + 0.0, round(y, 2) + 0.0)
-            rep = r['umap'].get(key)
-            lab = labels.get(rep) if rep is not None else None
-            by_grid[gp] = lab
-            if lab is None:
-                out.spec_fail(dict(op='parse', symptom='terminal_without_node'), f'grid point {gp} has no node name', desc,
-                              program=program, geom=geom); return None
-        for gp in by_grid:
-            for gq in by_grid:
+        for gp, lab in terms:
+            by_grid.setdefault(gp, lab)
+        for gp, lab in terms:
+            for gq, lab2 in terms:
                 same = spec['cls'][gp] == spec['cls'][gq]
-                if same != (by_grid[gp] == by_grid[gq]):
+                if same != (lab == lab2):
                     out.spec_fail(dict(op='parse', symptom='partition'),
-                                  f'{gp} and {gq}: joined={same} but node names {by_grid[gp]!r}, {by_grid[gq]!r}', desc,
+                                  f'{gp} and {gq}: joined={same} but node names {lab!r}, {lab2!r}', desc,
                                   program=program, geom=geom); return None
         # terminal ORDER of every component: (start, end), listed (end, start) when the symbol is reversed
         for k_, w in zip(c.components, spec['comps']):
@@ -264,8 +296,8 @@ def check_case(ctx, out, program, geom, origin, solve=False):
                               impl=show_circuit(c), program=program, geom=geom); return None
         for t, ns in spec['names'].items():
             gp = next(p for p, cl in spec['cls'].items() if cl == t)
-            if by_grid[gp] != ns[0]:
-                out.spec_fail(dict(op='parse', symptom='name'), f'node {ns[0]!r} is called {by_grid[gp]!r}', desc,
+            if by_grid[gp] not in ns:
+                out.spec_fail(dict(op='parse', symptom='name'), f'node {ns!r} is called {by_grid[gp]!r}', desc,
                               program=program, geom=geom); return None
         if spec['grounds'] and not isinstance(r['ground_label'], tuple):
             gp = next(p for p, cl in spec['cls'].items() if cl == spec['grounds'][0])
@@ -458,6 +490,42 @@ BRIDGE = [dict(kind='V', name='Vs', vals={'V': 10.0}, rev=False, a=(0, 0), b=(0,
 BRIDGE_EXT = [[dict(kind='wire', a=(1, 1), b=(3, 1))], [dict(kind='lnode', name='mid', a=(3, 1))], [dict(kind='gnd', a=(0, 0))],
               [dict(kind='R', name='R5', vals={'R': 5.0}, a=(0, 2), b=(0, 0))]]
 
+TIE_LOOP = [dict(kind='V', name='Vs', vals={'V': 10.0}, rev=False, a=(0, 0), b=(0, 1), place='dir'),
+            dict(kind='R', name='R1', vals={'R': 5.0}, a=(0, 1), b=(1, 1), place='chain'),
+            dict(kind='R', name='R2', vals={'R': 5.0}, a=(1, 1), b=(1, 0), place='chain'),
+            dict(kind='wire', a=(1, 0), b=(0, 0), place='chain'), dict(kind='gnd', a=(0, 0))]
+# a node label on the ground node (one node, two names), labels added before and after the ground
+LABEL_ON_GROUND = [TIE_LOOP[:4] + [dict(kind='gnd', a=(0, 0)), dict(kind='lnode', name='A', a=(1, 0))],
+                   TIE_LOOP[:4] + [dict(kind='node', name='B', a=(0, 0)), dict(kind='gnd', a=(1, 0))]]
+
+def audit_streams(ctx, out, rng):
+    """inputs the other streams leave out: coordinates on rounding ties, linear sources in every direction,
+    names passed positionally, a label on the ground node"""
+    # 1. rounding ties: translations / units that put coinciding terminals on a tie of round(x, 2)
+    for geom in (dict(rot=0, unit=3.0, dx=0.005, dy=0.0), dict(rot=0, unit=3.0, dx=0.125, dy=0.125), dict(rot=1, unit=2.125, dx=0.0, dy=0.0)):
+        check_case(ctx, out, TIE_LOOP, geom, 'tie_corpus')
+    for i in range(10 if ctx.quick else 300):
+        if ctx.time_left() < 40: break
+        prog = gd.ladder_program(rng) if rng.random() < 0.6 else gd.random_program(rng)
+        if gd.valid_program(prog):
+            check_case(ctx, out, prog, gd.tie_geometry(rng), 'tie')
+    # 2. linear (lossy) DC sources, placed by each of the four direction methods
+    for i in range(8 if ctx.quick else 120):
+        if ctx.time_left() < 35: break
+        prog, geom = gd.linear_source_program(rng)
+        if i < 4: geom = dict(geom, rot=i)
+        check_case(ctx, out, prog, geom, 'linear_source')
+    # 3. `name` passed by position (a supported call of the constructors that list it positionally)
+    for i, k in enumerate(sorted(gd.POSITIONAL)):
+        if ctx.time_left() < 30: break
+        if not ctx.quick or i % 3 == ctx.seed % 3:
+            prog = [dict(kind=k, name=f'{k}1', vals=gd.random_vals(rng, k), rev=False, positional=True, a=(0, 0), b=(0, 1)),
+                    dict(kind='R', name='R1', vals={'R': 2.0}, a=(0, 1), b=(1, 1)), dict(kind='wire', a=(1, 1), b=(0, 0)), dict(kind='gnd', a=(0, 0))]
+            check_case(ctx, out, prog, dict(gd.IDENT, unit=3.0), 'positional_name')
+    # 4. a label on the ground node
+    for prog in LABEL_ON_GROUND:
+        check_case(ctx, out, prog, dict(gd.IDENT, unit=3.0), 'label_on_ground')
+
 def history_stream(ctx, out, rng, n):
     history_case(ctx, out, BRIDGE, BRIDGE_EXT, dict(gd.IDENT, unit=3.0), 'history_corpus')
     for i in range(n):
@@ -545,6 +613,7 @@ def run(ctx, out):
         if ctx.time_left() < 20: break
         for prog in malformed_programs(rng):
             check_case(ctx, out, prog, gd.random_geometry(rng), 'malformed')
+    audit_streams(ctx, out, ctx.rng('c13', 'audit'))
     history_stream(ctx, out, ctx.rng('c13', 'history'), 10 if ctx.quick else 300)
     n_meta = 11 if ctx.quick else 300
     for i in range(n_meta):
